@@ -123,6 +123,16 @@ def gen_workflow(rng, max_nodes=6, speeds=(10,), allow_zero=True, shape=None):
                     edges.append((i, j))
     # edge volumes: dyadic relative to bandwidths (exact floats)
     edges = [[u, v, rng.choice([0, 1, 2, 4, 8, 3, 6])] for (u, v) in edges]
+    if rng.random() < 0.5 and n > 1:
+        # the workflow file need not list its nodes in a topological order, nor
+        # number them that way: relabel and shuffle
+        perm = list(range(n))
+        rng.shuffle(perm)
+        for nd in nodes:
+            nd["id"] = perm[nd["id"]]
+        edges = [[perm[u], perm[v], d] for (u, v, d) in edges]
+        rng.shuffle(nodes)
+        rng.shuffle(edges)
     return {"nodes": nodes, "edges": edges}
 
 
